@@ -14,10 +14,14 @@
 EXTENDS Nlp
 
 St(s, e) == [op |-> "st", s |-> s, a |-> e]
+PW == [op |-> "pw"]      \* the parent's own global variable
+PQ == [op |-> "pq"]      \* the parent's own global parameter
 
 RECURSIVE EvalP(_, _)
 EvalP(e, Ws) ==
   CASE e.op = "c"   -> e.v
+    [] e.op = "pw"  -> Ws[1].pr.pw
+    [] e.op = "pq"  -> Ws[1].d.pq
     [] e.op = "st"  -> EvalW(e.a, Ws[e.s], EnvNS(Ws[e.s]), -1)
     [] e.op = "add" -> Add(EvalP(e.a, Ws), EvalP(e.b, Ws))
     [] e.op = "sub" -> Sub(EvalP(e.a, Ws), EvalP(e.b, Ws))
